@@ -228,3 +228,177 @@ Theorem C05_life_call_memoryless : forall verify_sigs detail_of enabled max n de
   c1 = c2.
 Proof. exact life_call_memoryless. Qed.
 Print Assumptions C05_life_call_memoryless.
+
+Require Import Verif.Check.C03_check Verif.Check.C05_check Verif.Proofs.JudgeSoundC05P.
+(* ---- the executable properties of Check/C05_check.v are the property (judge soundness) ---- *)
+(* Per judge: x_model_passes = the model's own output passes the executable property x_ok (no latent false alarm),
+   x_sound = an ARBITRARY implementation output that passes x_ok satisfies the clauses of the theorems above. *)
+(* gate (ShouldAcceptAttestedReport): C05_accept_gate on the implementation's accept code *)
+Theorem C05_judge_gate5_model_passes : forall i, gate5_ok i (gate5_model i) = true.
+Proof. exact gate5_model_passes. Qed.
+Print Assumptions C05_judge_gate5_model_passes.
+
+Theorem C05_judge_gate5_sound : forall r s f rmn gp c,
+  gate5_ok (r, s, f, rmn, gp) c = true ->
+  c <> 2%N /\
+  (c = 1%N -> rmn = true -> r <> 0%N -> (f + 1 <= s)%N) /\
+  (c = 1%N -> commit_report_empty r 0 gp s = false).
+Proof. exact gate5_sound. Qed.
+Print Assumptions C05_judge_gate5_sound.
+
+(* report / replife (Reports + ShouldAcceptAttestedReport): what is emitted, RemoteF = F of the outcome's config, C05_accept_gate *)
+Theorem C05_judge_rep5_model_passes : forall i, rep5_ok i (rep5_model i) = true.
+Proof. exact rep5_model_passes. Qed.
+Print Assumptions C05_judge_rep5_model_passes.
+
+Theorem C05_judge_rep5_sound : forall ty nr ns f gp rmn o,
+  rep5_ok (ty, nr, ns, f, gp, rmn) o = true ->
+  (o = None -> nr = 0%N /\ ns = 0%N /\ gp = 0%N) /\
+  (forall r s rf c, o = Some (r, s, rf, c) ->
+     r = nr /\ s = ns /\ c <> 2%N /\
+     rf = (if Z.eqb ty T_generated then f else 0%N) /\
+     (c = 1%N -> rmn = true -> r <> 0%N -> (rf + 1 <= s)%N)).
+Proof. exact rep5_sound. Qed.
+Print Assumptions C05_judge_rep5_sound.
+
+(* build (Outcome in the building state): C05_roots_signed (iff) and the invariant of C05_no_sigs_without_roots on the implementation's outcome; premise of model_passes: the previous outcome satisfies the invariant *)
+Theorem C05_judge_build_model_passes : forall max n prev q co,
+  sigs_imply_roots prev -> build_ok (max, n, prev, q, co) (build_model (max, n, prev, q, co)) = true.
+Proof. exact build_model_passes. Qed.
+Print Assumptions C05_judge_build_model_passes.
+
+Theorem C05_judge_build_sound : forall max n prev q co o,
+  build_ok (max, n, prev, q, co) o = true ->
+  sigs_imply_roots o /\
+  forall c b, next_state (o_type prev) = Building -> q_retry q = false -> co = Some c -> q_sigs q = Some b ->
+    (o = empty_outcome /\ (parse_sigs (b_sigs b) = None \/ parse_lanes (b_lanes b) = None)) \/
+    (exists sigs lanes,
+       parse_sigs (b_sigs b) = Some sigs /\ parse_lanes (b_lanes b) = Some lanes /\
+       (forall r, In r (o_roots o) <-> In r (c_roots c) /\ In r lanes) /\
+       (o_roots o <> [] -> o_sigs o = sigs /\ o_type o = T_generated) /\
+       (o_roots o = [] -> o_sigs o = [] /\ o_type o = T_empty)).
+Proof. exact build_sound. Qed.
+Print Assumptions C05_judge_build_sound.
+
+(* obs (Observation with a recording crypto oracle): C05_observe_requires_bundle (without init <> 2, chain_known), C05_no_bundle_elsewhere, C05_refused_observation_empty, C05_roots_observed_only_when_building, C05_retry_round_inert on the implementation's answer *)
+Theorem C05_judge_obs_model_passes : forall i, obs_ok i (obs_model i) = true.
+Proof. exact obs_model_passes. Qed.
+Print Assumptions C05_judge_obs_model_passes.
+
+Theorem C05_judge_obs_sound : forall enabled ty cfg_e d dest init known off q ans w code call ob,
+  obs_ok (enabled, ty, cfg_e, d, dest, init, known, off, q, ans, w) (code, call, ob) = true ->
+  let st := next_state ty in
+  code <> 2%N /\
+  (code = 1%N -> obs_is_empty ob = true) /\
+  (st = Building -> q_retry q = true -> obs_is_empty ob = true) /\
+  (ob_roots ob <> [] -> st = Building /\ q_retry q = false) /\
+  (enabled = true -> ob_roots ob <> [] -> exists c, call = Some c /\ ans = true) /\
+  (enabled = true -> st = Building -> q_retry q = false -> code = 0%N ->
+     exists b sigs lanes offa,
+       q_sigs q = Some b /\ cfg_e = false /\ off = Some offa /\
+       parse_sigs (b_sigs b) = Some sigs /\ parse_lanes (b_lanes b) = Some lanes /\
+       call = Some (sigs, (cd_version d, dest, cd_contract d, offa, cd_digest d, lanes), cd_signers d) /\
+       ans = true) /\
+  (enabled = true -> st <> Building -> q_sigs q <> None -> code = 1%N) /\
+  (forall c, call = Some c -> ans = false -> code = 1%N).
+Proof. exact obs_sound. Qed.
+Print Assumptions C05_judge_obs_sound.
+
+(* chain (one round Query -> Observation -> ValidateObservation -> Outcome): C05_honest_query, the observation theorems, C05_reported_roots_verified, C05_retry_round_inert on the implementation's round; premises of model_passes: quorum soundness of the case and the invariant of the previous outcome *)
+Theorem C05_judge_chain_model_passes : forall i,
+  chain_quorum_sound i -> sigs_imply_roots (chain_prev i) -> chain_ok i (chain_model i) = true.
+Proof. exact chain_model_passes. Qed.
+Print Assumptions C05_judge_chain_model_passes.
+
+Theorem C05_judge_chain_sound : forall enabled max n prev d dest offr onr lead ans rs won woff wcfg wf co lc lq lreq rest,
+  chain_ok (enabled, max, n, prev, d, dest, offr, onr, lead, ans, rs, won, woff, wcfg, wf, co) ((lc, lq, lreq), rest) = true ->
+  let st := next_state (o_type prev) in
+  lc <> 2%N /\
+  (forall ctrl q, lead = LHonest ctrl -> lq = Some q ->
+     (q = mkQuery false None /\ lreq = None) \/
+     (enabled = true /\ st = Building /\
+      query_requests (o_ranges prev) (fun k => alookup k onr) = lreq /\ lreq <> None /\
+      ((exists b, ctrl = CtrlSigs b /\ q = mkQuery false (Some b)) \/ (ctrl = CtrlTimeout /\ q = mkQuery true None)))) /\
+  (forall q, lq = Some q ->
+     exists oc call ob valid out, rest = Some ((oc, call, ob, true), valid, out) /\
+       oc <> 2%N /\
+       (oc = 1%N -> obs_is_empty ob = true) /\
+       (st = Building -> q_retry q = true -> obs_is_empty ob = true) /\
+       (ob_roots ob <> [] -> st = Building /\ q_retry q = false) /\
+       (enabled = true -> ob_roots ob <> [] -> exists c, call = Some c /\ ans = true) /\
+       (forall cl, call = Some cl ->
+          exists b offa sigs lanes,
+            q_sigs q = Some b /\ offr = Some offa /\
+            parse_sigs (b_sigs b) = Some sigs /\ parse_lanes (b_lanes b) = Some lanes /\
+            cl = (sigs, (cd_version d, dest, cd_contract d, offa, cd_digest d, lanes), cd_signers d)) /\
+       (forall oo, out = Some oo ->
+          (enabled = true -> st = Building -> oo <> prev -> o_roots oo <> [] ->
+             exists sigs lanes off,
+               call = Some (sigs, (cd_version d, dest, cd_contract d, off, cd_digest d, lanes), cd_signers d) /\
+               ans = true /\ (forall r, In r (o_roots oo) -> In r lanes) /\ o_sigs oo = sigs) /\
+          (st = Building -> q_retry q = true -> oo = prev) /\
+          sigs_imply_roots oo)).
+Proof. exact chain_sound. Qed.
+Print Assumptions C05_judge_chain_sound.
+
+(* life (long-lived processors, per round): C05_life_verified_against_agreed_config and C05_life_roots_need_verified_bundle with verify_sigs := toy_verify tab on the implementation's round; premises of model_passes: four oracles, the invariant of the previous outcome, quorum soundness of the case *)
+Theorem C05_judge_life_model_passes : forall i,
+  length (life_conn i) = 4%nat -> sigs_imply_roots (life_prev i) -> life_quorum_sound i ->
+  life_ok i (life_model i) = true.
+Proof. exact life_model_passes. Qed.
+Print Assumptions C05_judge_life_model_passes.
+
+Theorem C05_judge_life_sound : forall enabled max n prev d dest offr onr lead rs won woff wcfg wf co lidx conn ifail nodes tab
+                          lc lq lreq linit rest conn2,
+  life_ok (enabled, max, n, prev, d, dest, offr, onr, lead, rs, won, woff, wcfg, wf, co, (lidx, conn, ifail, nodes, tab))
+          ((lc, lq, lreq, linit), rest, conn2) = true ->
+  let st := next_state (o_type prev) in
+  let cfg_e := cfg_is_empty (o_cfg prev) in
+  lc <> 2%N /\
+  (forall dg nd, linit = Some (dg, nd) -> enabled = true /\ cfg_e = false /\ dg = cd_digest d /\ nd = nodes) /\
+  Forall2 (fun c c' => c' = c \/ (enabled = true /\ cfg_e = false /\ c' = cd_digest d)) conn conn2 /\
+  (forall ctrl q, lead = LHonest ctrl -> lq = Some q ->
+     (q = mkQuery false None /\ lreq = None) \/
+     (enabled = true /\ st = Building /\
+      exists reqs, lreq = Some (reqs, o_cfg prev) /\
+                   query_requests (o_ranges prev) (fun k => alookup k onr) = Some reqs /\
+      ((exists b, ctrl = CtrlSigs b /\ q = mkQuery false (Some b)) \/ (ctrl = CtrlTimeout /\ q = mkQuery true None)))) /\
+  (forall q, lq = Some q ->
+     exists outs valid out, rest = Some (outs, valid, out) /\ length outs = 4%nat /\
+       (forall oc call ob ic, In (oc, call, ob, ic) outs ->
+          oc <> 2%N /\
+          (forall dg nd, ic = Some (dg, nd) -> enabled = true /\ cfg_e = false /\ dg = cd_digest d /\ nd = nodes) /\
+          (oc = 1%N -> obs_is_empty ob = true) /\
+          (st = Building -> q_retry q = true -> obs_is_empty ob = true) /\
+          (ob_roots ob <> [] -> st = Building /\ q_retry q = false) /\
+          (forall c, call = Some c ->
+             exists b offa, q_sigs q = Some b /\ offr = Some offa /\ expected_call d dest offa b = Some c) /\
+          (enabled = true -> ob_roots ob <> [] -> exists c, call = Some c /\ toy_verify tab c = true) /\
+          (enabled = true -> st = Building -> q_retry q = false -> oc = 0%N ->
+             cfg_e = false /\ exists c, call = Some c /\ toy_verify tab c = true) /\
+          (enabled = true -> st <> Building -> q_sigs q <> None -> oc = 1%N) /\
+          (forall c, call = Some c -> toy_verify tab c = false -> oc = 1%N) /\
+          (st = Selecting -> oc = 0%N -> ob_cfg ob = wcfg)) /\
+       (forall oo, out = Some oo ->
+          (enabled = true -> st = Building -> oo <> prev -> o_roots oo <> [] ->
+             exists sigs lanes off,
+               toy_verify tab (sigs, (cd_version d, dest, cd_contract d, off, cd_digest d, lanes), cd_signers d) = true /\
+               (forall r, In r (o_roots oo) -> In r lanes) /\ o_sigs oo = sigs /\
+               (3 <= life_ok_count outs)%N) /\
+          (st = Building -> oo <> prev -> o_roots oo <> [] -> o_cfg oo = o_cfg prev) /\
+          (st = Building -> q_retry q = true -> oo = prev) /\
+          sigs_imply_roots oo)).
+Proof. exact life_sound. Qed.
+Print Assumptions C05_judge_life_sound.
+
+(* chain_ok as it was (chain_ok_before) accepted a round whose bundle was verified against another signer list and
+   other report fields than the agreed config's: the clause of C05_reported_roots_verified fails of it. Repaired in
+   Check/C05_check.v (the recorded call must be the expected call); the repaired chain_ok rejects the witness. *)
+Theorem C05_judge_chain_before_unsound :
+  chain_ok_before w_in (w_out true) = true /\
+  ~ (exists sigs lanes off,
+       Some (w_call true) = Some (sigs, (cd_version w_detail, 900%N, cd_contract w_detail, off, cd_digest w_detail, lanes),
+                                  cd_signers w_detail)) /\
+  chain_ok w_in (w_out true) = false /\ chain_ok w_in (w_out false) = true.
+Proof. exact (conj (proj1 chain_ok_before_unsound) (conj (proj2 chain_ok_before_unsound) chain_ok_rejects_witness)). Qed.
+Print Assumptions C05_judge_chain_before_unsound.
